@@ -207,7 +207,8 @@ func newSliceOrArrayAsListIterator(ctx *Context, sliceType reflect.Type) Iterato
 			context.NotifyNil()
 			return
 		}
-		if context.TryAddLocalReference(v) {
+		// Only slices can be shared; an array is a value and has no pointer.
+		if v.Kind() == reflect.Slice && context.TryAddLocalReference(v) {
 			return
 		}
 
